@@ -1278,23 +1278,24 @@ def _sizeb(g, scale):
     # insertion that takes it past 4096 values within that capacity; also through the many-way unions and the offset join
     for n1, n2, radd in ((1500, 1500, 2000), (1000, 1000, 2200), (2000, 2000, 200), (700, 700, 3000)):
         for form in ("ior", "fastor3", "ior-addmany"):
+            # everything in chunk 0, so that the universe term of the bound is one chunk
             a, b = g.fresh("ag"), g.fresh("ag")
-            g.emit("new %s" % a); g.emit("addstride %s %d 20 %d" % (a, 6 * CH + 1, n1))
-            g.emit("new %s" % b); g.emit("addstride %s %d 20 %d" % (b, 6 * CH + 8, n2))
+            g.emit("new %s" % a); g.emit("addstride %s %d 20 %d" % (a, 1, n1))
+            g.emit("new %s" % b); g.emit("addstride %s %d 20 %d" % (b, 8, n2))
             z = a
             if form == "fastor3":
                 c = g.fresh("ag"); z = g.fresh("ag")
-                g.emit("of %s %d %d" % (c, 6 * CH + 3, 6 * CH + 40003))
+                g.emit("of %s %d %d" % (c, 3, 40003))
                 g.emit("fastor %s %s %s %s" % (z, a, b, c))
             else:
                 g.emit("ior %s %s" % (a, b))
             g.emit("size %s" % z)
             if form == "ior-addmany":
-                g.emit("addmanyfrom %s %d %d 1" % (z, 6 * CH + 42000, radd))
+                g.emit("addmanyfrom %s %d %d 1" % (z, 42000, radd))
             else:
-                g.emit("addr %s %d %d" % (z, 6 * CH + 42000, 6 * CH + 42000 + radd))
+                g.emit("addr %s %d %d" % (z, 42000, 42000 + radd))
             g.emit("size %s" % z); g.emit("wf %s" % z)
-            g.emit("add %s %d" % (z, 6 * CH + 65000)); g.emit("size %s" % z); g.emit("wf %s" % z)
+            g.emit("add %s %d" % (z, 41000)); g.emit("size %s" % z); g.emit("wf %s" % z)
         g.count("sizeb:array-grown-by-union-then-range")
     # bitmaps built from dense words whose LAST chunk is partial (fewer than 1024 words) and holds few / ~4 per word / many values
     for words in ("3fffffff*100", "ffffffffffffffff*2048.ff*300", "1*50", "1f*820", "ffff*256", "ffffffffffffffff*1024.ffffffffffffffff*65",
